@@ -169,6 +169,24 @@ class HGen:
             out.append((version, routes, ops, 30))
         return out
 
+    def every_action_called(self):
+        """call() for EVERY action of each version once (the request with every optional, a valid reply): it is written
+        under its own action name and its reply comes back as the result -- whatever the action is called"""
+        out = []
+        for version in ("1.6", "2.0.1"):
+            acts = sorted(self.g.actions[version])
+            for part in (acts[::2], acts[1::2]):
+                ops = []
+                for k, action in enumerate(part):
+                    reqs = [i for i in self.insts(version, action, "req") if not i[2] and isinstance(i[1], dict)]
+                    resps = [i for i in self.insts(version, action, "resp") if not i[2] and isinstance(i[1], dict)]
+                    if not reqs or not resps:
+                        continue
+                    ops += [("start", k, "ea-%d" % k, action, GD.snake(reqs[0][1]), False, False, True),
+                            ("inbound", json.dumps([3, "ea-%d" % k, resps[0][1]])), ("tick", 1)]
+                out.append((version, [], ops, 30))
+        return out
+
     def surplus_action(self):
         """a CALLRESULT frame with a surplus fourth element naming ANOTHER action whose response schema the payload meets:
         the reply is judged by the schema of the request it answers, whatever the peer appends"""
@@ -210,10 +228,13 @@ class HGen:
             for sid in ("-1", -1, "", "0", None):
                 ops = [("inbound", json.dumps([4, sid, "GenericError", "early", {}])),
                        ("start", 0, "A", "Heartbeat", {}, False, False, True),
+                       ("start", 7, "Q", "Heartbeat", {}, False, False, True),        # queued behind A
                        ("inbound", json.dumps([4, sid, "InternalError", "during", {}])),
                        ("inbound", json.dumps([3, sid, {"currentTime": "wrong"}])),
                        ("tick", 1),
                        ("inbound", json.dumps([3, "A", {"currentTime": "right"}])),
+                       ("tick", 1),
+                       ("inbound", json.dumps([3, "Q", {"currentTime": "queued"}])),
                        ("tick", 1),
                        ("start", 1, None, "Heartbeat", {}, False, True, True),
                        ("inbound", json.dumps([4, sid, "GenericError", "again", {}])),
@@ -256,7 +277,7 @@ class HGen:
             hs.append(self.history(self.rng.choice([6, 12, 25, 40]) if self.tier == "quick" else self.rng.choice([10, 40, 120]), timeout))
         hs.append(self.stale_flood(300 if self.tier == "quick" else 3000))
         # the scenario families that C04/C05/C16 need come first (those checks take a prefix), then the random histories
-        return self.skip_overlap() + self.skip_then_validate() + self.route_skip_does_not_leak() + self.surplus_action() + hs + self.special_ids() + self.error_codes() + self.reply_burst(1100 if self.tier == "quick" else 2600)
+        return self.skip_overlap() + self.skip_then_validate() + self.route_skip_does_not_leak() + self.surplus_action() + self.every_action_called() + hs + self.special_ids() + self.error_codes() + self.reply_burst(1100 if self.tier == "quick" else 2600)
 
 
 def run_histories(rep, hs, tag, prop_id, oracle, view, shard_size=8, async_validation=False):
